@@ -83,7 +83,12 @@ func (s *sharedEntryAttributes) toXmlInternal(parent *etree.Element, onlyNewOrUp
 			// we keep track of that via overAllDoAdd.
 			overallDoAdd = doAdd || overallDoAdd
 		}
-		return overallDoAdd, nil
+		// the elements of a choice case that lost against another case are deleted
+		doAdd, err := s.xmlAddChoiceCaseDeletes(parent, honorNamespace, operationWithNamespace, useOperationRemove)
+		if err != nil {
+			return false, err
+		}
+		return doAdd || overallDoAdd, nil
 	case *sdcpb.SchemaElem_Container:
 		overallDoAdd := false
 		switch {
@@ -151,8 +156,12 @@ func (s *sharedEntryAttributes) toXmlInternal(parent *etree.Element, onlyNewOrUp
 			// So create the element that the tree entry represents
 			newElem := etree.NewElement(s.PathName())
 
-			// Apply sorting of childs
-			keys := s.childs.GetKeys()
+			// Apply sorting of childs, of a choice only the active case is rendered
+			childs := s.filterActiveChoiceCaseChilds()
+			keys := make([]string, 0, len(childs))
+			for k := range childs {
+				keys = append(keys, k)
+			}
 			if s.parent == nil {
 				slices.Sort(keys)
 			} else {
@@ -162,21 +171,21 @@ func (s *sharedEntryAttributes) toXmlInternal(parent *etree.Element, onlyNewOrUp
 				})
 			}
 
+			// for namespace attr creation we need to handle the root node (s.parent == nil) specially
+			if s.parent != nil {
+				// only if not the root level, we can check if parent namespace != actual elements namespace
+				// so if we need to add namespaces, check if they are equal, if not add the namespace attribute
+				xmlAddNamespaceConditional(s, s.parent, newElem, honorNamespace)
+			} else {
+				// if this is the root node, we take the given element from the parent parameter as p
+				// avoiding wrongly adding an additional level in the xml doc.
+				newElem = parent
+			}
+
 			// iterate through all the childs
 			for _, k := range keys {
-
-				// for namespace attr creation we need to handle the root node (s.parent == nil) specially
-				if s.parent != nil {
-					// only if not the root level, we can check if parent namespace != actual elements namespace
-					// so if we need to add namespaces, check if they are equal, if not add the namespace attribute
-					xmlAddNamespaceConditional(s, s.parent, newElem, honorNamespace)
-				} else {
-					// if this is the root node, we take the given element from the parent parameter as p
-					// avoiding wrongly adding an additional level in the xml doc.
-					newElem = parent
-				}
 				// recurse the call to all the children
-				child, exists := s.childs.GetEntry(k)
+				child, exists := childs[k]
 				if !exists {
 					return false, fmt.Errorf("child %s does not exist for %s", k, strings.Join(s.Path(), "/"))
 				}
@@ -187,6 +196,14 @@ func (s *sharedEntryAttributes) toXmlInternal(parent *etree.Element, onlyNewOrUp
 				// if a branch, represented by the childs is not meant to be added the doAdd is false.
 				// if all the childs are meant to no be added, the whole container element should not be added
 				// so we keep track via overAllDoAdd
+				overallDoAdd = doAdd || overallDoAdd
+			}
+			// the elements of a choice case that lost against another case are deleted
+			if len(s.choicesResolvers) > 0 {
+				doAdd, err := s.xmlAddChoiceCaseDeletes(newElem, honorNamespace, operationWithNamespace, useOperationRemove)
+				if err != nil {
+					return false, err
+				}
 				overallDoAdd = doAdd || overallDoAdd
 			}
 			// a presence container that carries a value of its own is rendered
@@ -314,4 +331,49 @@ func xmlAddKeyElements(s Entry, parent *etree.Element) {
 		}
 		treeElem = treeElem.GetParent()
 	}
+}
+
+// xmlAddChoiceCaseDeletes adds a delete for every element of a choice case that was active before the transaction and
+// lost against another case, like GetDeletes() does for the path based representations.
+func (s *sharedEntryAttributes) xmlAddChoiceCaseDeletes(elem *etree.Element, honorNamespace bool, operationWithNamespace bool, useOperationRemove bool) (bool, error) {
+	if len(s.choicesResolvers) == 0 {
+		return false, nil
+	}
+	deletes, err := s.getChoiceCaseDeletes(nil)
+	if err != nil {
+		return false, err
+	}
+	names := make([]string, 0, len(deletes))
+	for _, d := range deletes {
+		p := d.Path()
+		names = append(names, p[len(p)-1])
+	}
+	slices.Sort(names)
+	added := false
+	for _, name := range names {
+		child, exists := s.childs.GetEntry(name)
+		if exists && len(child.GetSchemaKeys()) > 0 {
+			// a list cannot be deleted as a whole, every entry is deleted with its keys
+			listEntries, err := child.FilterChilds(nil)
+			if err != nil {
+				return false, err
+			}
+			slices.SortFunc(listEntries, getListEntrySortFunc(child))
+			for _, le := range listEntries {
+				delElem := elem.CreateElement(name)
+				xmlAddNamespaceConditional(child, s, delElem, honorNamespace)
+				utils.AddXMLOperation(delElem, utils.XMLOperationDelete, operationWithNamespace, useOperationRemove)
+				xmlAddKeyElements(le, delElem)
+				added = true
+			}
+			continue
+		}
+		delElem := elem.CreateElement(name)
+		if exists {
+			xmlAddNamespaceConditional(child, s, delElem, honorNamespace)
+		}
+		utils.AddXMLOperation(delElem, utils.XMLOperationDelete, operationWithNamespace, useOperationRemove)
+		added = true
+	}
+	return added, nil
 }
